@@ -28,8 +28,9 @@ package extractor
 //@ pred cpOld(pg S3ListBucketResult) = forall(i, 0, len(pg.CommonPrefixes), len(pg.CommonPrefixes[i].Prefix) > 0 ==> !freshslice(pg.CommonPrefixes[i].Prefix))
 
 //@ func s3Legacy
+//@   attr safety C10
 //@   property C19
-//@   checks idx
+//@   checks div idx slice
 //@   requires reqURL != nil && parsedBase != nil
 //@   let page = result
 //@   modifies mapof(url.qtable())
@@ -48,9 +49,10 @@ package extractor
 // counterexample that replay template c19_s3V2 confirmed on the real code. Repaired by a
 // "fix:" commit (see /verif/KNOWN_FINDINGS.txt); the instance is kept as [objects-1x1].
 //@ func s3V2
+//@   attr safety C10
 //@   replay c19_s3V2:objects-1x1
 //@   property C19
-//@   checks idx
+//@   checks div idx slice
 //@   mode paths
 //@   let page = result
 //@   requires reqURL != nil && parsedBase != nil
@@ -82,16 +84,18 @@ package extractor
 //@ pred hasExtAt(s string, e int) = e > 0 && s[e-1] != '.' && exists(d, 0, e, s[d] == '.' && forall(j, d, e, s[j] != '/'))
 
 //@ func hasFileExtension
+//@   attr safety C10
 //@   property C19
-//@   checks idx slice
+//@   checks div idx slice
 //@   let s0 = s
 //@   modifies nothing
 //@   ensures [ext] forall(e, 0, len(s0)+1, cutEnd(s0, e) ==> (result ==> hasExtAt(s0, e))) // C19: URLs whose last path segment has a file extension
 //@   ensures [no-dot] forall(j, 0, len(s0), s0[j] != '.') ==> !result
 
 //@ func isLikelyJSON
+//@   attr safety C10
 //@   property C19
-//@   checks idx
+//@   checks div idx slice
 //@   modifies nothing
 //@   ensures [short] len(str) < 5 ==> !result
 //@   ensures [def] len(str) >= 5 ==> result == (((str[0] == '{' && str[len(str)-1] == '}') || (str[0] == '[' && str[len(str)-1] == ']')) && strings.Contains(str, "\"")) // C19: including JSON embedded in a string
@@ -103,8 +107,9 @@ package extractor
 // findURLs (recursive; its own contract is assumed at the recursive calls): discovery only
 // ever appends, links found earlier keep their position.
 //@ func findURLs
+//@   attr safety C10
 //@   property C19
-//@   checks idx nil
+//@   checks div idx nil slice
 //@   requires links != nil
 //@   let l0 = *links
 //@   modifies *links, elem::string
@@ -114,8 +119,9 @@ package extractor
 
 // GetURLsFromJSON: the asset/outlink split of the discovered links.
 //@ func GetURLsFromJSON
+//@   attr safety C10
 //@   property C19
-//@   checks idx
+//@   checks div idx slice
 //@   modifies elem::string
 //@   loop range invariant [frame] -1 <= rangeindex && rangeindex < len(links) && freshslice(assets) && freshslice(outlinks) && (arrof(assets) != 0 ==> !samearray(assets, links) && !samearray(assets, outlinks)) && (arrof(outlinks) != 0 ==> !samearray(outlinks, links))
 //@   loop range invariant [count] len(assets) + len(outlinks) == rangeindex + 1
@@ -130,6 +136,8 @@ package extractor
 
 // JSON: every raw asset / outlink becomes a new URL object, in two new lists.
 //@ func JSON
+//@   attr safety C10
+//@   checks idx slice div
 //@   property C19
 //@   requires URL != nil
 //@   modifies models.URL::*!Hops!Redirects, elem::string
@@ -154,8 +162,9 @@ package extractor
 //@ pred altsInURLs(l []*models.URL, v *m3u8.Variant) = forall(k, 0, len(v.Alternatives), v.Alternatives[k] != nil && v.Alternatives[k].URI != "" ==> urlHas(l, v.Alternatives[k].URI))
 
 //@ func M3U8
+//@   attr safety C10
 //@   property C19
-//@   checks idx
+//@   checks div idx slice
 //@   modifies models.URL::*!Hops!Redirects
 //@   loop range invariant [segments] -1 <= rangeindex && freshslice(rawAssets) && forall(i, 0, rangeindex+1, mediapl.Segments[i] != nil && mediapl.Segments[i].URI != "" ==> inList(rawAssets, mediapl.Segments[i].URI))
 //@   loop range#2 let vi = rangeindex
@@ -170,8 +179,9 @@ package extractor
 // not specified against the token stream: the contract language has no type assertion, so
 // "the attribute values / character data of token n" cannot be written (see report).
 //@ func XML
+//@   attr safety C10
 //@   property C19
-//@   checks idx
+//@   checks div idx slice
 //@   modifies models.URL::*!Hops!Redirects
 //@   loop for invariant [nothing-yet] len(assets) == 0 && len(outlinks) == 0 && freshslice(rawURLs)
 //@   loop range invariant [bounds] -1 <= rangeindex && len(assets) == 0 && len(outlinks) == 0 && freshslice(rawURLs)
